@@ -233,6 +233,14 @@ void World::quiescent_point() {
 	}
 	c10_quiescent();
 	c19_quiescent();
+	// "the daemon keeps accepting and serving connections": a connection waits in the queue of a listening socket, no accept failure is pending or lasting, nothing else is
+	// going to happen - and the daemon sleeps
+	if (q.empty()) for (auto &kf : g_kernel.fds) {
+		if (kf.kind != FD_LISTEN || !kf.open || !kf.in_epoll || kf.backlog.empty() || kf.lasting_accept_failure || kf.ep_pending) continue;
+		bool waiting = false; for (int ci : kf.backlog) if (ci >= 0 && ci < (int)clients.size() && !clients[(size_t)ci].client_closed) waiting = true;
+		bool marker = false; for (int ci : kf.backlog) if (ci < 0) marker = true;
+		if (waiting && !marker) violation("C11", "connection-left-in-accept-queue", "a connection is waiting in the queue of a listening socket, the event loop is idle and will not be woken for it: after an accept() that failed for lack of descriptors or memory the daemon returned without any means of trying again");
+	}
 	// bounded liveness of the upgrade: the daemon has read the whole (valid, default) upgrade request of a client that is still there, nothing else is going
 	// to happen, and yet it has written nothing: what it does with the bytes it has must not wait for further bytes to arrive (C09: a function of the bytes alone)
 	if (q.empty()) for (auto &c : clients) {
